@@ -75,7 +75,7 @@ def TransG (n : Nat) : Prop :=
 
 theorem tg_leaf (t : Ty) (h : match t with
     | .undef | .dflt | .numeric | .str | .bin | .int _ | .float _ _ | .bool _ | .tspan _ | .tstamp _ | .strSz _ | .strVal _ | .enum _ _
-    | .pattern _ | .regexp _ | .object _ | .scalar | .scalarData | .any | .coll _ => True
+    | .pattern _ | .regexp _ | .runtime _ _ _ | .object _ | .scalar | .scalarData | .any | .coll _ => True
     | _ => False) : t.TG sfh := by
   cases t <;> simp only [] at h <;> (first | contradiction | (unfold Ty.TG; trivial))
 
